@@ -142,3 +142,53 @@ func ZZH_C05_group_timeout() {
 		zz.Assert("C01.timeout-children-canonical-order", sl.Slice[0] < sl.Slice[1])
 	}
 }
+
+// ZZH_C09_reexecute: blocks 1..3 are executed, then consensus delivers a different block for a
+// height N <= head (N = 2 or 3): the executor rolls ledger and itself back to N-1 and
+// executes the new block N. Afterwards the stored chain up to N is still hash-linked (in
+// particular block N's parent is the stored block N-1, not a removed one), the head is N, and no
+// lookup returns anything above N.
+// zz:also C12 C08
+func ZZH_C09_reexecute() {
+	exec := zzNewExec(1, big.NewInt(0))
+	exec.ibtpVerify = &zzStubVerify{verdict: make([]uint8, 8), seen: make([]int, 8)}
+	exec.config.ProofType = "serial"
+	exec.ledger.SetBalance(zzAddr(zzUsers[0]), big.NewInt(1000))
+	acc, root := exec.ledger.FlushDirtyData()
+	_ = exec.ledger.StateLedger.Commit(0, acc, root)
+	genesisHash := exec.currentBlockHash
+	nonce := uint64(0)
+	for h := uint64(1); h <= 3; h++ {
+		var txs []pb.Transaction
+		if zz.Choice("withTx", 2) == 1 {
+			txs = append(txs, zzTransferTx(zzUsers[0], zzUsers[1], nonce, 0, "5"))
+			nonce++
+		}
+		exec.processExecuteEvent(zzBlockOf(h, txs))
+	}
+	zz.Assert("C09.reexec.setup", exec.currentHeight == 3)
+	n := uint64(2 + zz.Choice("forkHeight", 2)) // (height 1 is the genesis block on a real chain)
+	fork := zzBlockOf(n, []pb.Transaction{zzTransferTx(zzUsers[0], zzUsers[1], 0, 1, "7")})
+	fork.block.BlockHeader.Timestamp = 999
+	crashed, _ := zz.Crashed(func() { exec.processExecuteEvent(fork) })
+	zz.Assert("C08.block-executes", !crashed)
+	if crashed {
+		return
+	}
+	zz.Assert("C09.reexec.head", exec.currentHeight == n && exec.ledger.GetChainMeta().Height == n)
+	prev := genesisHash
+	for h := uint64(1); h <= n; h++ {
+		b, err := exec.ledger.GetBlock(h, true)
+		zz.Assert("C09.reexec.stored", err == nil)
+		zz.Assert("C09.reexec.parent-is-stored-predecessor", b.BlockHeader.ParentHash.String() == prev.String())
+		zz.Assert("C09.reexec.hash-of-header", b.BlockHash.String() == b.Hash().String())
+		prev = b.BlockHash
+	}
+	zz.Assert("C09.reexec.meta-hash", exec.ledger.GetChainMeta().BlockHash.String() == prev.String() && exec.currentBlockHash.String() == prev.String())
+	for h := n + 1; h <= 3; h++ {
+		_, err := exec.ledger.GetBlock(h, false)
+		zz.Assert("C09.reexec.nothing-above-head", err != nil)
+	}
+	// the new block's transfer (7) is applied on top of the state of block N-1
+	zz.Cover("C09.reexec.deep-rollback", n == 2)
+}
